@@ -677,6 +677,41 @@ impl World {
         let Some(mw) = self.msk_wire() else { return };
         let prop = self.p.prop;
         let cause = self.cause();
+        // model-free flavour invariant of the user key (C11): a secret filed under a right is
+        // hybridized iff an attribute of that right is (hints read from the structure in the MSK)
+        {
+            let mut hint_of: BTreeMap<u64, u64> = BTreeMap::new();
+            for d in &mw.structure.dims {
+                for a in &d.attrs {
+                    hint_of.insert(a.id, a.hint);
+                }
+            }
+            for (r, chain) in &w.chains {
+                let mut c = wire::Cur::new(r);
+                let mut ids = vec![];
+                while c.remaining() > 0 {
+                    match c.leb("id") {
+                        Ok(id) => ids.push(id),
+                        Err(_) => break,
+                    }
+                }
+                if ids.iter().any(|i| !hint_of.contains_key(i)) {
+                    continue;
+                }
+                let expected = ids.iter().any(|i| hint_of[i] == 1);
+                if chain.iter().any(|sk| sk.hybrid != expected) {
+                    self.finding(
+                        "C11",
+                        format!("usk-flavour-invariant:{what}"),
+                        format!("user key after {what}: right {ids:?} holds a secret with hybridized={} although its attributes' hints give {expected}", !expected),
+                    );
+                    if self.stopped {
+                        return;
+                    }
+                    break;
+                }
+            }
+        }
         let m = self.usks[idx].m.clone();
         let mut exp: BTreeMap<Vec<u8>, (RightT, Vec<(u64, bool)>)> = BTreeMap::new();
         for (r, chain) in &m.chains {
